@@ -215,6 +215,23 @@ Print Assumptions C01_ancestors_are_the_source.
    transition executed with the geometry THE SOURCE computes (domain, exit set, entry path, expansion of a history target,
    combined entry path of the restored states - all five from Gen/GenGeom.v).  Out of a legal configuration it is the
    model's `exec_external`, so the preservation theorems above hold of the transition as the source computes it: *)
+(* the PLAN of an external transition - domain, exit order, entry path, combined entry path of a history target - is SLICED OUT
+   of the effects of _execute_transition (asyncio engine) and of SyncInterpreter._process_single_transition by the translator
+   on every run (Gen/GenGeom.v: xt_* and pst_*; the translator refuses unless the effects around the plan are, in this order,
+   exit(<exit order>), actions(transition.actions), enter(path_to_enter), enter(combined_path) and a rollback handler that
+   assigns nothing and re-raises); both engines plan alike, and `exec_external_src` executes exactly that plan *)
+Theorem C01_engines_plan_alike : forall m C H src tgt,
+  pst_domain m C H src tgt = xt_domain m C H src tgt /\ pst_exit_order m C H src tgt = xt_exit_order m C H src tgt /\
+  pst_path m C H src tgt = xt_path m C H src tgt /\ pst_combined m C H src tgt = xt_combined m C H src tgt.
+Proof. exact plans_agree. Qed.
+Print Assumptions C01_engines_plan_alike.
+
+Theorem C01_plan_is_the_translated_geometry : forall m C H src tgt,
+  xt_exit_order m C H src tgt = rev (sort_by (lt_depth_id m) (GenGeom.compute_states_to_exit m C H (GenGeom.find_transition_domain m src tgt) tgt)) /\
+  xt_path m C H src tgt = (if is_history m tgt then [] else GenGeom.get_path_to_state m tgt (GenGeom.find_transition_domain m src tgt)).
+Proof. exact plan_is_geometry. Qed.
+Print Assumptions C01_plan_is_the_translated_geometry.
+
 Theorem C01_transition_is_the_source : forall m, ancestry_side_ok m = true -> forall eng pr t tgt ev s0,
   Legal m (s_cfg s0) -> In (t_src t) (s_cfg s0) -> tgt < size m ->
   exec_external_src eng pr m t tgt ev s0 = exec_external eng pr m t tgt ev s0.
